@@ -649,3 +649,47 @@ func VxHMACKey() {
 		vxAssert("the HMAC key of exactly that version", err == nil && vxEq(k, e.HMACKey))
 	}
 }
+
+// A rotation whose archive write lands but whose policy write fails (or which fails earlier), then a retry on healthy
+// storage: the retried rotation's key - not the aborted one's - is what the archive holds for the new version, so a
+// later raise-and-lower of min_decryption_version restores exactly the key that encrypted the data.
+func VxRotateRetryAfterFailedPersist() {
+	latest := 1 + vxChoose("latest version", 2)
+	p := vxPolicy(latest)
+	vxAssume(!p.Derived && p.MinEncryptionVersion <= 0)
+	p.MinDecryptionVersion = 1
+	p.MinAvailableVersion, p.ArchiveMinVersion, p.ArchiveVersion = 0, 0, latest
+	vxArchive = &archivedKeys{Keys: make([]KeyEntry, latest+1)}
+	for v := 1; v <= latest; v++ {
+		vxArchive.Keys[v] = p.Keys[strconv.Itoa(v)]
+	}
+	st := &vxStore{fail: vxBool("policy write fails")}
+	vxArchiveFail = vxBool("archive write fails")
+	first := p.Rotate(context.Background(), st, nil)
+	if first != nil {
+		vxReach("rotate: first attempt failed")
+		vxAssert("a failed rotation leaves the policy at its previous version", p.LatestVersion == latest && len(p.Keys) == latest)
+		st.fail, vxArchiveFail = false, false
+		vxAssert("the retried rotation succeeds", p.Rotate(context.Background(), st, nil) == nil)
+	} else {
+		vxReach("rotate: first attempt ok")
+	}
+	nv := latest + 1
+	vxAssert("one new version", p.LatestVersion == nv)
+	cur := p.Keys[strconv.Itoa(nv)].Key
+	pt := string(vxBytes("plaintext", 1))
+	ct, err := p.EncryptWithFactory(0, nil, nil, pt)
+	vxAssert("encrypt under the new version", err == nil && vxHasPrefix(ct, nv))
+	vxAssert("the archive holds the key the policy uses for the new version", len(vxArchive.Keys) == nv+1 && vxEq(vxArchive.Keys[nv].Key, cur))
+	// one more rotation, raise the minimum above nv, lower it again
+	vxAssert("second rotation ok", p.Rotate(context.Background(), st, nil) == nil)
+	p.MinDecryptionVersion = nv + 1
+	vxAssert("raise ok", p.Persist(context.Background(), st) == nil)
+	_, gone := p.Keys[strconv.Itoa(nv)]
+	vxAssert("the version left the working set", !gone)
+	p.MinDecryptionVersion = 1
+	vxAssert("lower ok", p.Persist(context.Background(), st) == nil)
+	got, derr := p.DecryptWithFactory(nil, nil, ct)
+	vxReach("rotate retry: decrypt after raise and lower")
+	vxAssert("a ciphertext of the retried version decrypts after min_decryption_version was raised and lowered", derr == nil && got == pt)
+}
